@@ -198,6 +198,42 @@ func (e *Exec) Judge() *Judgement {
 		if len(out.ApplyFail) > 0 {
 			props = append(props, "C11")
 		}
+		// an OK answer must not precede the stage the caller asked to wait for
+		if c.Err == nil {
+			awaited := configapi.TransactionStatus_COMMITTED
+			if c.Sync {
+				awaited = configapi.TransactionStatus_APPLIED
+			}
+			var reachedAt int64
+			for _, ev := range events {
+				if ev.Tx != nil && ev.OK && uint64(ev.Tx.Index) == c.TxIndex && strings.HasPrefix(ev.Kind, "tx.") &&
+					(ev.Tx.Status.State == awaited || (!c.Sync && ev.Tx.Status.State == configapi.TransactionStatus_APPLIED)) {
+					reachedAt = ev.StartSeq
+					break
+				}
+			}
+			e.C.Count("ok_answers_ordered_against_stage", 1)
+			if reachedAt == 0 || reachedAt > c.ReturnAt {
+				j.add("answer", []string{"C08"}, "answer/ok-before-awaited-stage", "%s (transaction %d) was answered OK (event #%d) before the transaction reached %s (event #%d)", c.Name(), c.TxIndex, c.ReturnAt, awaited, reachedAt)
+			}
+			// identifier and index extension
+			if c.Kind == "set" {
+				okExt := false
+				for _, x := range c.Resp.GetExtension() {
+					if r := x.GetRegisteredExt(); r != nil && r.Id == configapi.TransactionInfoExtensionID {
+						ti := &configapi.TransactionInfo{}
+						if ti.Unmarshal(r.Msg) == nil && string(ti.ID) == c.TxID && uint64(ti.Index) == c.TxIndex {
+							okExt = true
+						}
+					}
+				}
+				if !okExt {
+					j.add("answer", []string{"C08"}, "answer/transaction-info-extension", "%s: the response does not carry the id / index (%s / %d) under which the change is stored", c.Name(), c.TxID, c.TxIndex)
+				}
+			} else if c.RbResp == nil || string(c.RbResp.ID) != c.TxID || uint64(c.RbResp.Index) != c.TxIndex {
+				j.add("answer", []string{"C08"}, "answer/rollback-response", "%s: the response does not carry the id / index of the rollback transaction", c.Name())
+			}
+		}
 		wantOK := out.Committed && (out.Applied || !c.Sync)
 		// an asynchronous request whose transaction was committed but whose apply the device refused may
 		// truthfully be answered either way: OK (it reached the stage asked for) or the recorded failure
